@@ -1526,11 +1526,12 @@ class Container:
         # The source's own concentration needs no solvent (the solver would return that zero as noise of either sign), and
         # that of a solvent container which holds the solute nothing from the source. What "own" means is decided on the
         # concentrations, as well as they are known - never on the sizes of the portions.
+        # (a source of enzymes only holds nothing a concentration per mole is stated per: it has no "own" one)
         own = [top[i] / bottom[i] if bottom[i] else float('inf') for i in (0, 1)]
-        if (abs(concentration - own[0]) <= source._concentration_allowance(solute, denominator) * own[0]
-                and a[1][0] > 0):
+        if (own[0] < float('inf') and a[1][0] > 0 and
+                abs(concentration - own[0]) <= source._concentration_allowance(solute, denominator) * own[0]):
             x, y = quantity_value / a[1][0], 0.
-        elif (isinstance(solvent, Container) and top[1] > 0 and a[1][1] > 0 and
+        elif (isinstance(solvent, Container) and top[1] > 0 and a[1][1] > 0 and own[1] < float('inf') and
               abs(concentration - own[1]) <= solvent._concentration_allowance(solute, denominator) * own[1]):
             x, y = 0., quantity_value / a[1][1]
         else:
